@@ -172,5 +172,5 @@ Proof.
   2: { eapply Forall_impl; [|exact Hok]. intros q (Hu & _). lia. }
   exists l', st'. split; [|exact Hrel'].
   unfold rtu_server_run. rewrite run_serial_filter.
-  eapply run_serial_feed; [exact (proj1 Hfe)|apply filter_nonempty_all|exact Hfeed|exact Hall].
+  eapply (run_serial_feed rtu_recv_h packet_rtu); [exact (proj1 Hfe)|apply filter_nonempty_all|exact Hfeed|exact Hall].
 Qed.
